@@ -983,6 +983,7 @@ func (p *c14) RunCase(ctx *runner.Ctx) runner.CaseResult {
 		if k/2 == 0 {
 			p.metadata(x, adapt.Adapters[k%2], ctx)
 			p.inputsUntouched(x, adapt.Adapters[k%2])
+			p.nativeCallbacks(x, adapt.Adapters[k%2])
 		}
 	default:
 		idx := c - ni*no*2 - ni*2
